@@ -137,6 +137,21 @@ func (r *Ramp) ids() []int {
 			n = 65535 - r.Next + rapid.IntRange(-1, 1).Draw(r.T, "edge")
 		}
 	}
+	if r.Big {
+		// known finding large-value-dictionary: with a 32/64-bit index limit
+		// dictionaries never overflow, and ~130,000 distinct ids in every
+		// dictionary column of a wide trace stream need more Arrow memory than a
+		// default consumer may use (70 MiB). A big stream stays below 90,000
+		// distinct ids (the crossing needs 65,536).
+		if room := 90000 - r.Next; n*fresh/100 > room {
+			if room < 0 {
+				room = 0
+			}
+			if fresh > 0 {
+				n = room * 100 / fresh
+			}
+		}
+	}
 	limit := 65000
 	if r.Boundary {
 		limit = 65535
